@@ -149,6 +149,15 @@ def load_audited():
         return {e["key"]: e for e in json.load(fh)["sites"]}
 
 
+def B_adt(eng, t):
+    """crate type of the value a term denotes (self of a method or a nested field), through a throw-away Bounds"""
+    if isinstance(t, tuple) and t and t[0] == "param" and t[1] in eng.P.fns:
+        f = eng.P.fns[t[1]]
+        if t[2] == 1 and f.impl_self:
+            return f.impl_self
+    return None
+
+
 class NoPanic:
     def __init__(self, ctx, W, roots, rule="no-panic", root_pre=None, skip_fns=(), requirement_checker=None, stop=()):
         self.ctx = ctx
@@ -191,6 +200,32 @@ class NoPanic:
                         self._fmax[("roughenough::message::RtMessage", "values")] = n
             self.ctx.extra.setdefault("container_invariants", {})["roughenough::message::RtMessage.tags/values"] = \
                 "len <= %s (strictly ascending tags over the Tag enum)" % (self._fmax.get(("roughenough::message::RtMessage", "tags")),)
+            # Responder.requests: one push per add_*_request call, those calls only inside the batch loop of at most u8::MAX passes, and the
+            # queue emptied by reset() before every batch (requirement batch_size_is_u8)
+            if self.req_check:
+                RESP_ = "roughenough::responder::Responder"
+                okq, whyq = self.req_check("batch_size_is_u8")
+                nps = 0
+                if okq:
+                    for f_ in self.P.fns.values():
+                        if f_.derived:
+                            continue
+                        e_ = None
+                        for bb_, t_ in f_.calls():
+                            tys_ = t_.get("arg_tys") or [""]
+                            if not (tys_[0].startswith("&mut") and callee_name(t_["fn"].get("path", "")) not in self.NONGROWING):
+                                continue
+                            e_ = e_ or self.W.ev(f_.path)
+                            a_ = e_.call_args(bb_)
+                            if a_ and isinstance(a_[0], tuple) and a_[0][:1] == ("field",) and a_[0][2] == "requests" and B_adt(self, a_[0][1]) == RESP_:
+                                nps += 1
+                                if callee_name(t_["fn"].get("path", "")) != "push" or f_.in_loop(bb_) or f_.impl_self != RESP_ or \
+                                        not all(c_[0] == "roughenough::server::Server::collect_requests" or self.P.fns[c_[0]].impl_self == RESP_ and not self.P.fns[c_[0]].in_loop(c_[1])
+                                                for c_ in self.P.callers(f_.path)):
+                                    okq = False
+                if okq and nps:
+                    self._fmax[(RESP_, "requests")] = 255
+                    self.ctx.extra.setdefault("container_invariants", {})[RESP_ + ".requests (upper)"] = "len <= 255: %s; %d push site(s), one per queued request" % (whyq, nps)
             for (adt, field) in (("roughenough::merkle::MerkleTree", "levels"),):
                 n, why = self.guarded_growth_bound(adt, field)
                 if n is not None:
